@@ -356,7 +356,6 @@ func (c *Caller) InvokeContext(ctx context.Context, id string, name string, args
 			calls = cc.(*callCache)
 		}
 	}
-	calls.Append(newCall(index, name, args))
 	var results *resultMap
 	if rm, ok := c.results.Get(id); ok {
 		results = rm.(*resultMap)
@@ -367,8 +366,11 @@ func (c *Caller) InvokeContext(ctx context.Context, id string, name string, args
 			results = rm.(*resultMap)
 		}
 	}
+	// the result channel is in the table before the call can be fetched: a provider that
+	// reports the result at once must find it
 	result := make(chan returnValue, 1)
 	results.Set(index, result)
+	calls.Append(newCall(index, name, args))
 	c.response(id)
 	if verifhook.On {
 		verifhook.Gate("reverse.invokeQueued", id, index)
